@@ -265,18 +265,27 @@ def gen_fault(f, opkind, item):
     return {"kind": kind, "nth": f.randint(0, 2)}
 
 
-def gen_plan(verif_seed, run):
+def gen_opts(tier):
+    return {"deep": tier == "thorough"}
+
+
+def gen_plan(verif_seed, run, deep=False):
     rs = derive(PROP, verif_seed, run)
     w, o, f, c, l = (stream(rs, n) for n in ("world", "ops", "faults", "clock", "listing"))
     membranes, metas, pool = gen_world(w)
     idx = {k: [i for i, p in enumerate(pool) if p["kind"] == k] for k in ("process", "curve", "fn", "cond")}
-    n_ops = o.randint(10, 25)
+    n_ops = o.randint(10, 40 if deep else 25)
+    long_history = o.random() < (0.10 if deep else 0.06)       # a few long, save-heavy histories (many result directories under one membrane)
+    if long_history:
+        n_ops = o.randint(40, 60)
     dirs = [m["dir"] for m in metas]
     fav_dir = o.choice(dirs)
     ops = []
     saves = {"process": [], "curve": [], "fn": [], "cond": []}
     weights = [("save_process", 34), ("load_process", 20), ("save_curve", 7), ("load_curve", 9), ("save_fn", 6), ("load_fn", 7),
                ("save_cond", 3), ("load_cond", 4), ("load_membrane", 3), ("restart", 7), ("delete_process", 4)]
+    if long_history:
+        weights = [(k, (90 if k == "save_process" else wt)) for k, wt in weights]
     # swarm: drop some op kinds for this run
     enabled = [k for k, _ in weights if k in ("save_process", "load_process") or o.random() < 0.8]
     perm_listing = o.random() < 0.7
@@ -379,7 +388,7 @@ def gen_plan(verif_seed, run):
         enabled_kinds = [k for k in FAULT_KINDS if f.random() < 0.6] or [f.choice(FAULT_KINDS)]
         targets = [op for op in ops if op["op"].startswith(("save", "load")) and op["op"] != "load_membrane"]
         sp = [op for op in targets if op["op"] == "save_process"]
-        for _ in range(f.randint(1, 3)):
+        for _ in range(f.randint(1, 5 if deep else 3)):
             if not targets:
                 break
             op = f.choice(sp) if (sp and f.random() < 0.7) else f.choice(targets)
